@@ -21,7 +21,7 @@
  *
  * Observed besides the results:
  *  - every allocation made inside the library is tracked (--wrap=malloc,calloc,realloc,free,
- *    strdup): `live` = regions still allocated afterwards, minus the string variables that
+ *    strdup,strndup,reallocarray,posix_memalign,aligned_alloc): `live` = regions still allocated afterwards, minus the string variables that
  *    legitimately hold one; must be 0;
  *  - every buffer load_file returned is compared with the file's content when the parser
  *    frees it: it must be byte-identical (NUL patches restored) unless the scan of that file
@@ -124,6 +124,10 @@ void *__real_calloc(size_t, size_t);
 void *__real_realloc(void *, size_t);
 void __real_free(void *);
 char *__real_strdup(const char *);
+char *__real_strndup(const char *, size_t);
+void *__real_reallocarray(void *, size_t, size_t);
+int __real_posix_memalign(void **, size_t, size_t);
+void *__real_aligned_alloc(size_t, size_t);
 
 static void track(void *p)
 {
@@ -169,6 +173,15 @@ static void untrack(void *p)
 void *__wrap_malloc(size_t n) { void *p = __real_malloc(n); track(p); return p; }
 void *__wrap_calloc(size_t a, size_t b) { void *p = __real_calloc(a, b); track(p); return p; }
 char *__wrap_strdup(const char *s) { char *p = __real_strdup(s); track(p); return p; }
+char *__wrap_strndup(const char *s, size_t n) { char *p = __real_strndup(s, n); track(p); return p; }
+void *__wrap_aligned_alloc(size_t a, size_t n) { void *p = __real_aligned_alloc(a, n); track(p); return p; }
+int __wrap_posix_memalign(void **pp, size_t a, size_t n) { int r = __real_posix_memalign(pp, a, n); if (r == 0) track(*pp); return r; }
+void *__wrap_reallocarray(void *o, size_t a, size_t b)
+{
+	void *p = __real_reallocarray(o, a, b);
+	if (p) { if (o) untrack(o); track(p); }
+	return p;
+}
 void __wrap_free(void *p) { untrack(p); __real_free(p); }
 void *__wrap_realloc(void *o, size_t n)
 {
